@@ -105,16 +105,30 @@ func (e expr) eval() string {
 	return fns[e.F].F(fns[e.G].F(leavesX[e.X]) + fns[e.H].F(leavesY[e.Y]))
 }
 
+// single returns the attributes a style function gives to a lone letter. The four basic
+// functions are SGR 1/3/4/9 by definition (checked against the table in main); for the
+// coloured and composite ones the look is the application's choice, so what is required
+// is compositionality: nested calls give the union of what each call gives alone.
+func single(i int) oracle.Attr {
+	cells, _, _ := oracle.Cells(fns[i].F("z"))
+	for _, c := range cells {
+		if c.R == 'z' {
+			return c.Attr
+		}
+	}
+	return oracle.Attr{}
+}
+
 // expected attributes per letter: outermost first, inner colours win
 func (e expr) expected() map[rune]oracle.Attr {
 	m := map[rune]oracle.Attr{}
 	if e.Form == "A" {
-		a := fns[e.F].A().Union(fns[e.G].A()).Union(fns[e.H].A())
+		a := single(e.F).Union(single(e.G)).Union(single(e.H))
 		m['a'], m['b'] = a, a
 		return m
 	}
-	x := fns[e.F].A().Union(fns[e.G].A())
-	y := fns[e.F].A().Union(fns[e.H].A())
+	x := single(e.F).Union(single(e.G))
+	y := single(e.F).Union(single(e.H))
 	m['a'], m['b'], m['c'], m['d'] = x, x, y, y
 	return m
 }
@@ -247,6 +261,17 @@ func main() {
 	maxLayout := 1
 	if r.Thorough() {
 		maxLayout = 2
+	}
+	// the basic functions are defined by their SGR code; every function's own attributes
+	// must also be what the table (readme-level meaning) says, reported under its own key
+	for i, f := range fns {
+		if got := single(i); got != f.A() {
+			if i >= 1 && i <= 4 {
+				r.Violation("basic-attribute:"+f.Name, map[string]any{"function": f.Name, "shown": got.String(), "table": f.A().String(), "msg": "Bold/Italic/Underline/Strikethrough must show as SGR 1/3/4/9"})
+			} else {
+				r.Note("the look of %s is %s (table of the original design: %s); not judged, only compositionality is", f.Name, got, f.A())
+			}
+		}
 	}
 	F := int64(len(fns))
 	nA := F * F * F * int64(len(leavesX))
